@@ -341,6 +341,62 @@ def accepted_kinds(an, prog, T):
     return fv, dn
 
 
+def accepted_by_helper(an, prog, e):
+    """A crate-local projection helper in place of a TryFrom conversion (`fn v9_protocol(&FieldValue) -> Option<..>`):
+    -> (helper path, FieldValue variants for which it can build Some / Ok, DataNumber variants likewise) decided per
+    variant by setting the discriminant(s) and asking whether a block that builds `Some(..)` / `Ok(..)` can execute."""
+    FV = "variable_versions::data_number::FieldValue"
+    DN = "variable_versions::data_number::DataNumber"
+    cands = [n[2] for n in find(e, lambda n: n[0] == "call" and n[2] is not None and n[2].local and n[2].kind == "Item")] + \
+        [n[1] for n in find(e, lambda n: n[0] == "constfn" and getattr(n[1], "local", False))]      # `.and_then(v9_protocol)`
+    for cal in cands:
+        hb = prog.bodies.get(cal.path)
+        if hb is None or hb.derived or hb.arg_count != 1 or "FieldValue" not in hb.local_ty(1) or not re.match(r"^std::(option::Option|result::Result)<", hb.local_ty(0)):
+            continue
+        body = classifier_inlined(prog, hb.path) or hb
+        outer, inner = [], []
+        for l in range(1, len(body.locals)):
+            try:
+                x = peel(an.local(body, l), widen=True)
+            except RecursionError:
+                continue
+            if x[0] != "discr":
+                continue
+            base = peel(x[1])
+            while base[0] in ("ref", "deref"):
+                base = peel(base[1])
+            if base == ("arg", 1):
+                outer.append(l)
+            elif find(x[1], lambda m: m[0] == "downcast" and m[2] == "DataNumber"):
+                inner.append(l)
+        if not outer:
+            continue
+
+        def builds(live):
+            return any(s0["rv"]["variant"] in ("Some", "Ok") for (bb, i0, s0) in block_aggs(body, live)) or \
+                any(cb in live and cc is not None and cc.nsyn in ("std::result::Result::ok", "std::convert::TryFrom::try_from", "std::convert::TryInto::try_into", "std::option::Option::map")
+                    for (cb, tt, cc) in body.calls())
+
+        def val(v):
+            dv = v.get("discr")
+            return int(dv) if dv is not None and str(dv).lstrip("-").isdigit() else v["vi"]
+        fv, dn = set(), set()
+        for v in prog.adts[FV]["variants"]:
+            asg = {l: val(v) for l in outer}
+            if v["name"] != "DataNumber":
+                if builds(body.reachable_cp(0, assume=asg)):
+                    fv.add(v["name"])
+                continue
+            for w in prog.adts[DN]["variants"]:
+                a2 = dict(asg)
+                a2.update({l: val(w) for l in inner})
+                if builds(body.reachable_cp(0, assume=a2)):
+                    dn.add(w["name"])
+                    fv.add("DataNumber")
+        return hb.path, fv, dn
+    return None, None, None
+
+
 def produced_kinds(an, prog):
     """FieldDataType variant -> FieldValue variant built by from_field_type in that arm; and DataNumber width table."""
     b = prog.body("variable_versions::data_number::FieldValue::from_field_type")
@@ -643,6 +699,12 @@ def run(ctx, env):
             for le in late:
                 T = T or target_of(an, prog, le[1]) or target_of(an, prog, le[0])
             fv, dn = accepted_kinds(an, prog, T) if T else (None, None)
+            if fv is None:
+                hp, fv, dn = accepted_by_helper(an, prog, an.op(b, o))
+                if hp is None:
+                    hp, fv, dn = accepted_by_helper(an, prog, e)
+                if fv is not None:
+                    T = "helper %s" % hp.rsplit("::", 1)[-1]
             if fv is None:
                 ctx.ob("R13.3", P["fn"], "target:%s" % nm, False, "cannot determine the conversion target of %s (T=%s)" % (nm, T))
                 continue
